@@ -15,7 +15,7 @@ theorem tbl_holdsW {g : Bool} {a : WAct} {p q : WP} {c : Bool} (h : wNext g a p 
     simp [holdsW]
 
 theorem tbl_holdsT {g : Bool} {a : WAct} {p q : WP} {c : Bool} (h : wNext g a p c = some q) :
-    (holdsT p = true ↔ (a = .time ∨ a = .unlockT)) ∧ (holdsT q = true ↔ (a = .lockT ∨ a = .time)) := by
+    (holdsT p = true ↔ (a = .time ∨ a = .unlockT)) ∧ (holdsT q = true ↔ (a = .lockT ∨ a = .time ∨ a = .lockTF)) := by
   cases g <;> cases c <;> cases a <;> (try (rename_i ok; cases ok)) <;> cases p <;> simp [wNext] at h <;> (try subst h) <;>
     simp [holdsT]
 
@@ -41,7 +41,7 @@ structure WFacts (s : St) (i : Nat) (a : WAct) (p q : WP) : Prop where
   hi : i < s.ws.length
   hpci : pc s i = p
   next : wNext s.g a p (tsAt s i == .canceled) = some q
-  gT : a = .lockT → s.thd = .none
+  gT : a.locksT = true → s.thd = .none
   gO : a = .lock → s.own = .none
 
 theorem w_facts {s s' : St} {i : Nat} {a : WAct} (hs : wStep s i a = some s') :
@@ -120,7 +120,7 @@ theorem minv_w {s s' : St} {i : Nat} {a : WAct} (hm : MInv s) (hs : wStep s i a 
     | unlock => simp [wEffect] at hc
     | _ => exact hc
   · cases a with
-    | lockT => simp [wEffect]
+    | lockT | lockTF => simp [wEffect]
     | unlockT => simp [wEffect]
     | _ => exact h5
   · -- thdW
@@ -128,13 +128,13 @@ theorem minv_w {s s' : St} {i : Nat} {a : WAct} (hm : MInv s) (hs : wStep s i a 
     by_cases hj : j = i
     · subst hj; simp only [if_true]
       cases a with
-      | lockT => simp [wEffect, tq]
+      | lockT | lockTF => simp [wEffect, tq]
       | unlockT => simp at tq; simp [wEffect, tq]
       | time => have := hthd_tu (Or.inl rfl); simp at tq; simp [wEffect, tq, this]
       | _ => simp at tq tp; simp only [wEffect]; rw [tq]; simpa [tp] using hthdI
     · simp only [if_neg hj]
       cases a with
-      | lockT =>
+      | lockT | lockTF =>
         have h6j := h6 j; rw [hgT rfl] at h6j
         simp only [wEffect, hneW hj, false_iff]; intro hc; have := h6j.mpr hc; cases this
       | unlockT =>
@@ -147,7 +147,7 @@ theorem minv_w {s s' : St} {i : Nat} {a : WAct} (hm : MInv s) (hs : wStep s i a 
     have hc' : s.spc.holdsT = true := by simpa [wEffect_spc] using hc
     have hso := h7 hc'
     cases a with
-    | lockT => have := hgT rfl; rw [this] at hso; cases hso
+    | lockT | lockTF => have := hgT rfl; rw [this] at hso; cases hso
     | unlockT => have := hthd_tu (Or.inr rfl); rw [this] at hso; cases hso
     | _ => exact hso
   · -- thdS2
@@ -155,7 +155,7 @@ theorem minv_w {s s' : St} {i : Nat} {a : WAct} (hm : MInv s) (hs : wStep s i a 
     rw [wEffect_spc]
     apply h8
     cases a with
-    | lockT => simp [wEffect] at hc
+    | lockT | lockTF => simp [wEffect] at hc
     | unlockT => simp [wEffect] at hc
     | _ => exact hc
   · rw [wEffect_spc, wEffect_dpc]; exact h9
